@@ -17,19 +17,20 @@ Ltac qx_unf t :=
     qx_eps qs_k1 bc_tau bc_delta bc_beta bc_energy bc_p bc_refE cb_z cb_pz cb_beta cb_p cb_energy cb_p0c drift_bmadx_energy
     Rsqr cosh sinh INR] in t.
 
-(* name the real term t (all its occurrences) as a fresh variable carrying an interval enclosure; literals and variables are left alone *)
+(* keeps a single copy of the tracked particle in the goal while it is evaluated (the six conjuncts share it) *)
 Definition qx_wrap (P : cpart -> Prop) (o : cpart) : Prop := P o.
 
-(* enclosure of a closed real expression, computed in a small side goal (interval_intro's cost grows with the goal it runs in) *)
 (* drop the enclosures of variables that do not occur in b: [interval] re-reads every hypothesis (90-bit literals) on each call *)
 Ltac qx_clear_unused b :=
   repeat match goal with
   | H : _ <= ?v <= _ |- _ => is_var v; lazymatch b with context [v] => fail | _ => clear H end
   end.
+(* enclosure of a real expression over enclosed variables, computed in a small side goal (interval_intro's cost grows with the goal it runs in) *)
 Ltac qx_encl b H :=
   eassert (H : _ <= b <= _);
   [ qx_clear_unused b; let H' := fresh in interval_intro b with (i_prec 90) as H'; exact H' | ].
 
+(* name the real term t (all its occurrences in the goal) as a fresh variable carrying an interval enclosure; literals and variables are left alone *)
 Ltac qx_abs t :=
   lazymatch t with
   | IZR _ => idtac
